@@ -223,6 +223,8 @@ type zzStep struct {
 	ctxValue string
 	// explicit metadata.name the function gives desired resource i ("" = none)
 	names []string
+	// emptyMessages: results carry no message text
+	emptyMessages bool
 }
 
 type zzCall struct {
@@ -338,14 +340,20 @@ func (r *zzRunner) RunFunction(_ context.Context, name string, req *fnv1.RunFunc
 		}
 		rsp.Requirements = &fnv1.Requirements{ExtraResources: map[string]*fnv1.ResourceSelector{key: sel}}
 	}
+	msg := func(m string) string {
+		if st.emptyMessages {
+			return ""
+		}
+		return m
+	}
 	if st.fatal {
-		rsp.Results = append(rsp.Results, &fnv1.Result{Severity: fnv1.Severity_SEVERITY_FATAL, Message: "fatal " + name})
+		rsp.Results = append(rsp.Results, &fnv1.Result{Severity: fnv1.Severity_SEVERITY_FATAL, Message: msg("fatal " + name)})
 	}
 	if st.warning {
-		rsp.Results = append(rsp.Results, &fnv1.Result{Severity: fnv1.Severity_SEVERITY_WARNING, Message: "warning " + name})
+		rsp.Results = append(rsp.Results, &fnv1.Result{Severity: fnv1.Severity_SEVERITY_WARNING, Message: msg("warning " + name)})
 	}
 	if st.normal {
-		rsp.Results = append(rsp.Results, &fnv1.Result{Severity: fnv1.Severity_SEVERITY_NORMAL, Message: "normal " + name})
+		rsp.Results = append(rsp.Results, &fnv1.Result{Severity: fnv1.Severity_SEVERITY_NORMAL, Message: msg("normal " + name)})
 	}
 	call.rsp = rsp
 	r.calls = append(r.calls, call)
